@@ -17,7 +17,7 @@ run_one() {
   for c in $checks; do
     out="$("$V/check" "$c" --tier "$TIER" 2>&1)"; rc=$?
     if [ $rc -eq 1 ] && echo "$out" | grep -q "^VIOLATION property=$c"; then caught="$caught $c"; fi
-    if [ $rc -eq 2 ]; then caught="$caught $c(machinery-exit)"; fi
+    if [ $rc -eq 2 ]; then echo "    [$c] machinery exit (2): not a verdict, does not count as catching the change"; fi
     echo "$out" | grep -E "^VIOLATION|why|^C[0-9]+ " | head -4 | cut -c1-300 | sed "s/^/    [$c] /"
   done
   git -C /repo checkout -- .
